@@ -2,3 +2,7 @@
 From QuillGen Require SrcFacts.
 Lemma src_be_format_catch_all : SrcFacts.be_format_catch_all = true.
 Proof. vm_compute. reflexivity. Qed.
+Lemma src_be_format_catch_std : SrcFacts.be_format_catch_std = true.
+Proof. vm_compute. reflexivity. Qed.
+Lemma src_be_bt_replay_catch : SrcFacts.be_bt_replay_catch = true.
+Proof. vm_compute. reflexivity. Qed.
